@@ -519,7 +519,7 @@ impl ASN1Type {
     }
 
     /// Checks whether a reference to the type `name` occurs anywhere in `self`, directly or
-    /// through other parameterized types (which are expanded in place as well).
+    /// through other parameterized types and their instances (which are expanded in place as well).
     fn mentions<'a>(
         &'a self,
         name: &str,
@@ -536,6 +536,18 @@ impl ASN1Type {
                                 parameterization: Some(_),
                                 ..
                             })) => {
+                                visited.push(identifier);
+                                ty.mentions(name, tlds, visited)
+                            }
+                            // an instance of a parameterized type is expanded in place, too
+                            Some(ToplevelDefinition::Type(ToplevelTypeDefinition {
+                                ty: ty @ ASN1Type::ElsewhereDeclaredType(e),
+                                ..
+                            })) if e
+                                .constraints
+                                .iter()
+                                .any(|c| matches!(c, Constraint::Parameter(_))) =>
+                            {
                                 visited.push(identifier);
                                 ty.mentions(name, tlds, visited)
                             }
